@@ -75,6 +75,18 @@ def hypSub (env : Env) (s : Sub) (σ : State) (fuel : Nat) : Bool :=
   | [] => true
   | b :: _ => hypRun env s.blocks fuel b.tid σ 0 []
 
+/-- every non-temporary variable read by the blocks is one of the registers `phys` (executable form of
+`NonTempPhys`, RunDeadVars.lean: under it the temporaries-based hypothesis H2 checked by `hypRun` is the
+hypothesis `RunLocals` of the theorems) -/
+def nonTempPhysB (phys : List Variable) (blocks : List (Term Blk)) : Bool :=
+  let okE (e : Expression) : Bool := e.inputVars.all fun v => v.isTemp || decide (v ∈ phys)
+  blocks.all fun b =>
+    (b.term.defs.all fun d => match d.term with
+      | .Assign _ e => okE e
+      | .Load _ a => okE a
+      | .Store a e => okE a && okE e) &&
+    (b.term.jmps.all fun j => (jmpExprs j.term).all okE)
+
 def isStuck : Event → Bool
   | .stuck _ => true
   | _ => false
